@@ -1,0 +1,85 @@
+//go:build verif
+
+// Contracts for the verification harness in /verif (comment-only; no declarations).
+package controllerref
+
+//@ func addOwnerReference(in, add) (out)
+//@   safety C13
+//@   writes [C17] fresh
+//@   let foundIn = exists i int :: 0 <= i && i < len(in) && in[i].UID == add.UID
+//@   invariant loop 1 [C04]: fresh(out) && len(out) == rangeindex + 1 && rangeindex < len(in)
+//@   invariant loop 1 [C04]: forall j int :: 0 <= j && j <= rangeindex ==> out[j] == ite(in[j].UID == add.UID, add, in[j])
+//@   invariant loop 1 [C04]: found == (exists i int :: 0 <= i && i <= rangeindex && in[i].UID == add.UID)
+//@   ensures [C04] len(out) == len(in) + ite(foundIn, 0, 1)
+//@   ensures [C04] forall j int :: 0 <= j && j < len(in) ==> out[j] == ite(in[j].UID == add.UID, add, in[j])
+//@   ensures [C04] !foundIn ==> out[len(in)] == add
+
+//@ func removeOwnerReference(in, uid) (out)
+//@   safety C13
+//@   writes [C17] fresh
+//@   invariant loop 1 [C04]: fresh(out) && len(out) <= rangeindex + 1 && rangeindex < len(in)
+//@   invariant loop 1 [C04]: forall j int :: 0 <= j && j < len(out) ==> out[j].UID != uid && (exists i int :: 0 <= i && i <= rangeindex && in[i] == out[j])
+//@   ensures [C04] forall j int :: 0 <= j && j < len(out) ==> out[j].UID != uid && (exists i int :: 0 <= i && i < len(in) && in[i] == out[j])
+//@   // not claimed: "every reference with another UID is kept" (a forall-exists over two slices on top of the other invariants makes the obligations time out)
+
+//@ func atomicUpdate(rc, obj, updateFunc) (err)
+//@   requires validClient(rc) && obj != nil && updateFunc != nil
+//@   callback updateFunc: writes arg 0
+//@   writes [C17,C02] fresh
+//@   safety C13
+
+//@ func UnstructuredManager.adoptChild(m, child) (err)
+//@   requires m != nil && child != nil && validClient(m.client) && m.Controller != nil && ref(m.Controller) != 0
+//@   safety C13
+//@   bind call BaseControllerRefManager.CanAdopt: caErr
+//@   at atomicUpdate(rc, o, fn) [C04]: called(BaseControllerRefManager.CanAdopt) && caErr == nil && o == child && rc == m.client
+//@   ensures [C04] called(BaseControllerRefManager.CanAdopt)
+//@   ensures [C04] caErr != nil ==> err != nil && !called(atomicUpdate)
+
+//@ func UnstructuredManager.adoptChild$1(obj) (changed)
+//@   requires obj != nil
+//@   safety C13
+//@   om-writes [C04,C02] owners
+//@   writes [C04,C17] obj
+//@   ensures [C04] changed
+//@   ensures [C04] exists j int :: 0 <= j && j < ownerLen(obj) && ownerAt(obj, j) == *controllerRef
+//@   ensures [C04] forall j int :: 0 <= j && j < ownerLen(obj) ==> ownerAt(obj, j) == *controllerRef || (exists i int :: 0 <= i && i < old(ownerLen(obj)) && old(ownerAt(obj, i)) == ownerAt(obj, j))
+
+//@ func UnstructuredManager.releaseChild(m, obj) (err)
+//@   requires m != nil && obj != nil && validClient(m.client) && m.Controller != nil && ref(m.Controller) != 0
+//@   safety C13
+//@   writes [C17,C02] fresh
+//@   bind call atomicUpdate: auErr
+//@   at atomicUpdate(rc, o, fn) [C04]: o == obj && rc == m.client
+//@   ensures [C12] (err == nil) == (auErr == nil || IsNotFound(auErr) || IsGone(auErr))
+
+//@ func UnstructuredManager.releaseChild$1(obj) (changed)
+//@   requires obj != nil && *m != nil && (*m).Controller != nil && ref((*m).Controller) != 0
+//@   safety C13
+//@   om-writes [C04,C02] owners
+//@   writes [C04,C17] obj
+//@   ensures [C04] changed
+//@   ensures [C04] forall j int :: 0 <= j && j < ownerLen(obj) ==> ownerAt(obj, j).UID != (*m).Controller.GetUID()
+//@   ensures [C04] forall j int :: 0 <= j && j < ownerLen(obj) ==> (exists i int :: 0 <= i && i < old(ownerLen(obj)) && old(ownerAt(obj, i)) == ownerAt(obj, j))
+
+//@ func UnstructuredManager.ClaimChildren(m, children) (claimed, err)
+//@   requires m != nil && m.Controller != nil && ref(m.Controller) != 0 && m.Selector != nil && validClient(m.client)
+//@   requires forall i int :: 0 <= i && i < len(children) ==> children[i] != nil
+//@   safety C13
+//@   noexit loop 1 [C12]
+//@   bind loop 1: idx, child
+//@   at BaseControllerRefManager.ClaimObject(bm, o, mt, ad, rl) [C02,C04]: ref(o) == ref(child)
+//@   invariant loop 1 [C03,C02]: forall j int :: 0 <= j && j < len(claimed) ==> claimed[j] != nil && (exists i int :: 0 <= i && i < len(children) && children[i] == claimed[j])
+//@   invariant loop 1 [C02]: forall j int :: 0 <= j && j < len(claimed) ==> (hasCtrl(claimed[j]) && ctrlUID(claimed[j]) == str(m.Controller.GetUID())) || ufb_adoptedThisSync(ref(claimed[j]))
+//@   ensures [C03,C02] forall j int :: 0 <= j && j < len(claimed) ==> claimed[j] != nil && (exists i int :: 0 <= i && i < len(children) && children[i] == claimed[j])
+//@   ensures [C02] forall j int :: 0 <= j && j < len(claimed) ==> (hasCtrl(claimed[j]) && ctrlUID(claimed[j]) == str(m.Controller.GetUID())) || ufb_adoptedThisSync(ref(claimed[j]))
+
+//@ func UnstructuredManager.ClaimChildren$2(obj) (err)
+//@   requires *m != nil && obj != nil && ref(obj) != 0 && validClient((*m).client) && (*m).Controller != nil && ref((*m).Controller) != 0
+//@   requires typeis(obj, *unstructured.Unstructured)
+//@   safety C13
+
+//@ func UnstructuredManager.ClaimChildren$3(obj) (err)
+//@   requires *m != nil && obj != nil && ref(obj) != 0 && validClient((*m).client) && (*m).Controller != nil && ref((*m).Controller) != 0
+//@   requires typeis(obj, *unstructured.Unstructured)
+//@   safety C13
